@@ -28,6 +28,7 @@ must each decode to a value of the same type, value and sign.
 
 from __future__ import annotations
 
+import asyncio
 import itertools
 import math
 import os
@@ -314,9 +315,29 @@ class Impl:
         tok = self.tokens(src)[0].expression[0]
         return tok.path[1]
 
+    mode = "sync"          # "sync": Template.render, "async": Template.render_async on one event loop
+
     def render(self, src: str, data: dict[str, Any] | None = None, templates: dict[str, str] | None = None) -> str:
-        env = self.Environment(loader=self.DictLoader(templates or {}))
-        return env.from_string(src).render(**(data or {}))
+        if templates is None:
+            env = self.env                       # no loader state, no caches: safe to share
+        elif templates is BIND_TEMPLATES:
+            if self._bind_env is None:
+                self._bind_env = self.Environment(loader=self.DictLoader(dict(BIND_TEMPLATES)))
+            env = self._bind_env
+        else:
+            env = self.Environment(loader=self.DictLoader(templates))
+        return self.run_template(env.from_string(src), data)
+
+    _bind_env: Any = None
+
+    def run_template(self, template: Any, data: dict[str, Any] | None = None) -> str:
+        if self.mode == "sync":
+            return template.render(**(data or {}))
+        if self._loop is None:
+            self._loop = asyncio.new_event_loop()
+        return self._loop.run_until_complete(template.render_async(**(data or {})))
+
+    _loop: Any = None
 
     def parse(self, src: str, templates: dict[str, str] | None = None) -> Any:
         env = self.Environment(loader=self.DictLoader(templates or {}))
@@ -341,6 +362,9 @@ def _first_literal(expr: Any) -> Any:
 def lit(q: str, raw: str) -> str:
     return q + raw + q
 
+
+# partials that write what was bound: under the name of the partial (`p`) or under the alias `v`
+BIND_TEMPLATES = {"p": "[{{ p }}]", "pv": "[{{ v }}]"}
 
 SITES: dict[str, dict[str, Any]] = {
     "output": {
@@ -414,6 +438,55 @@ SITES: dict[str, dict[str, Any]] = {
         "src": lambda q, raw: "{% include 'p' with 1 as " + lit(q, raw) + " %}",
         "ast": lambda t: str(t.nodes[0].alias),
         "render": None, "expect": None,
+    },
+    "extends": {
+        "site": "SiteIdentifier", "template": True, "plain_only": True,
+        "src": lambda q, raw: "{% extends " + lit(q, raw) + " %}",
+        "ast": lambda t: t.nodes[0].name.value,
+        "render": lambda im, q, raw, s: im.render("{% extends " + lit(q, raw) + " %}", None, {s: "EXT"}),
+        "expect": lambda s: "EXT",
+    },
+    "include_with": {
+        "site": "SitePrimitive", "template": True,
+        "src": lambda q, raw: "{% include 'p' with " + lit(q, raw) + " %}",
+        "ast": lambda t: t.nodes[0].var.value,
+        "render": lambda im, q, raw, s: im.render("{% include 'p' with " + lit(q, raw) + " %}", None, BIND_TEMPLATES),
+        "expect": lambda s: "[" + s + "]",
+    },
+    "include_with_as": {
+        "site": "SitePrimitive", "template": True,
+        "src": lambda q, raw: "{% include 'pv' with " + lit(q, raw) + " as v %}",
+        "ast": lambda t: t.nodes[0].var.value,
+        "render": lambda im, q, raw, s: im.render("{% include 'pv' with " + lit(q, raw) + " as v %}", None, BIND_TEMPLATES),
+        "expect": lambda s: "[" + s + "]",
+    },
+    "include_for_as": {
+        "site": "SitePrimitive", "template": True,
+        "src": lambda q, raw: "{% include 'pv' for " + lit(q, raw) + " as v %}",
+        "ast": lambda t: t.nodes[0].var.value,
+        "render": lambda im, q, raw, s: im.render("{% include 'pv' for " + lit(q, raw) + " as v %}", None, BIND_TEMPLATES),
+        "expect": lambda s: "[" + s + "]",
+    },
+    "render_with": {
+        "site": "SitePrimitive", "template": True,
+        "src": lambda q, raw: "{% render 'p' with " + lit(q, raw) + " %}",
+        "ast": lambda t: t.nodes[0].var.value,
+        "render": lambda im, q, raw, s: im.render("{% render 'p' with " + lit(q, raw) + " %}", None, BIND_TEMPLATES),
+        "expect": lambda s: "[" + s + "]",
+    },
+    "render_with_as": {
+        "site": "SitePrimitive", "template": True,
+        "src": lambda q, raw: "{% render 'pv' with " + lit(q, raw) + " as v %}",
+        "ast": lambda t: t.nodes[0].var.value,
+        "render": lambda im, q, raw, s: im.render("{% render 'pv' with " + lit(q, raw) + " as v %}", None, BIND_TEMPLATES),
+        "expect": lambda s: "[" + s + "]",
+    },
+    "render_for_as": {
+        "site": "SitePrimitive", "template": True,
+        "src": lambda q, raw: "{% render 'pv' for " + lit(q, raw) + " as v %}",
+        "ast": lambda t: t.nodes[0].var.value,
+        "render": lambda im, q, raw, s: im.render("{% render 'pv' for " + lit(q, raw) + " as v %}", None, BIND_TEMPLATES),
+        "expect": lambda s: "[" + s + "]",
     },
     "path": {
         "site": "SitePathSegment", "template": False,
@@ -687,7 +760,8 @@ def gen_valid(run: Run) -> dict[str, list[tuple[str, str, str]]]:
     return {"short": short, "three": three, "longer": longer}
 
 
-def oracle_sites(run: Run, triples: Iterable[tuple[str, str, str]], site_names: list[str]) -> None:
+def oracle_sites(run: Run, triples: Iterable[tuple[str, str, str]], site_names: list[str],
+                 with_async: bool = False) -> None:
     im = run.im
     for q, s, raw in triples:
         for name in site_names:
@@ -710,6 +784,22 @@ def oracle_sites(run: Run, triples: Iterable[tuple[str, str, str]], site_names: 
                 run.fail(f"literal-value:{name}",
                          f"site {name}: literal {lit(q, raw)!r} denotes {got!r}, written {s!r}",
                          {"site": name, "quote": q, "raw": raw, "intended": s, "got": got,
+                          "source": sd["src"](q, raw)})
+            if not with_async:
+                continue
+            im.mode = "async"
+            try:
+                aout = attempt(sd["render"], im, q, raw, s)
+            finally:
+                im.mode = "sync"
+            run.count("oracle_renders")
+            run.count("oracle_async_renders")
+            if aout != ("ok", exp):
+                got = aout[1] if aout[0] == "ok" else type(aout[1]).__name__
+                run.fail(f"literal-value:async:{name}",
+                         f"site {name} under render_async(): literal {lit(q, raw)!r} denotes {got!r}, written {s!r} "
+                         f"(render() gives {out[1] if out[0] == 'ok' else type(out[1]).__name__!r})",
+                         {"site": name, "quote": q, "raw": raw, "intended": s, "got": got, "mode": "render_async",
                           "source": sd["src"](q, raw)})
 
 
@@ -820,7 +910,8 @@ def tie_scanners(run: Run, inputs: list[tuple[str, str]], tails: list[str]) -> N
 
 def tie_site_values(run: Run, inputs: list[tuple[str, str]], every: int) -> None:
     im = run.im
-    rest = ["if", "include", "macro", "render", "filter_arg", "ternary", "assign", "include_alias"]
+    rest = ["if", "include", "macro", "render", "filter_arg", "ternary", "assign", "include_alias",
+            "extends", "include_with", "include_for_as", "render_with_as", "render_for_as", "include_with_as", "render_with"]
     seen: set[tuple[str, str, str]] = set()
     for idx, (q, raw) in enumerate(inputs):
         if not no_surr(raw):
@@ -1035,6 +1126,114 @@ def tie_json(run: Run) -> None:
                     {"function": "json.loads", "text": out[1], "implementation": back})
         if out[1] != json.dumps(v, ensure_ascii=False, separators=(",", ":")):
             run.nontrivial.add("j:" + out[1])
+
+
+# ---------------------------------------------------------------- string literals as template names
+
+NAME_STRINGS = ["layouts\\base", "code\\u0041", "\\\\server\\share", "a\"b", "a'b", "a\nb", "a\\nb", "\\n", "\\t\\\\", "☺",
+                "\\", "\\\\", "\\'", "\\\"", "x\\u00e9", "\\uD83D\\uDE00", "dir/partial.liquid", "a\\/b", "${x}", "\\${x}",
+                "é\U0001F600", "tab\there", "\\b", "..\\up", "", " ", "a b", "{{ name }}", "{% raw %}", "%}", "}}"]
+NAME_TAGS = {"extends": "{%% extends %s %%}", "include": "{%% include %s %%}", "render": "{%% render %s %%}"}
+
+
+def make_recording_loader(im: Impl, templates: dict[str, str]) -> Any:
+    class Recording(im.DictLoader):  # type: ignore[misc,name-defined]
+        def __init__(self, t: dict[str, str]) -> None:
+            super().__init__(t)
+            self.asked: list[str] = []
+
+        def get_source(self, env: Any, template_name: str, *, context: Any = None, **kwargs: Any) -> Any:
+            self.asked.append(template_name)
+            return super().get_source(env, template_name, context=context, **kwargs)
+
+        async def get_source_async(self, env: Any, template_name: str, *, context: Any = None, **kwargs: Any) -> Any:
+            self.asked.append(template_name)
+            return await super().get_source_async(env, template_name, context=context, **kwargs)
+
+    return Recording(templates)
+
+
+def oracle_template_names(run: Run, triples: list[tuple[str, str, str]]) -> None:
+    """extends / include / render with a literal name: the loader is asked for
+    exactly the string the literal denotes, under render() and render_async().
+    Decoys sit under the raw spelling and under the name unescaped once more."""
+    im = run.im
+    for q, s, raw in triples:
+        if ref_decode(q, raw, True) != s:
+            continue
+        templates = {s: "BODY"}
+        for decoy in (raw, ref_decode(DQ, s, False), ref_decode(SQ, s, False), s.replace("\\'", "'")):
+            if decoy is not None and decoy != s:
+                templates.setdefault(decoy, "DECOY")
+        literal = lit(q, raw)
+        for tag, fmt in NAME_TAGS.items():
+            src = fmt % literal
+            for mode in ("sync", "async"):
+                loader = make_recording_loader(im, templates)
+                env = im.Environment(loader=loader)
+                im.mode = mode
+                try:
+                    out = attempt(lambda env=env, src=src: im.run_template(env.from_string(src)))
+                finally:
+                    im.mode = "sync"
+                run.count("oracle_renders")
+                run.count("template_name_renders")
+                asked = list(dict.fromkeys(loader.asked))
+                if out != ("ok", "BODY") or asked != [s]:
+                    got = out[1] if out[0] == "ok" else type(out[1]).__name__
+                    run.fail(f"template-name:{tag}" + (":async" if mode == "async" else ""),
+                             f"{src!r} ({'render_async' if mode == 'async' else 'render'}): the loader was asked for {asked!r} "
+                             f"and the result is {got!r}; the literal denotes the name {s!r}",
+                             {"tag": tag, "mode": mode, "source": src, "intended_name": s, "requested": asked,
+                              "got": got, "templates": templates})
+        if "\\" in raw:
+            run.nontrivial.add(f"n:{q}:{raw}")
+
+
+def gen_name_literals(run: Run, pool: list[tuple[str, str, str]]) -> list[tuple[str, str, str]]:
+    r = run.r
+    out: list[tuple[str, str, str]] = []
+    for s in NAME_STRINGS:
+        for q in (SQ, DQ):
+            out.append((q, s, "".join(spellings(c, q)[0] for c in s)))         # plainest
+            out.append((q, s, "".join(spellings(c, q)[-1] for c in s)))        # every character escaped
+            for _ in range(2 if not run.thorough else 12):
+                out.append((q, s, random_spelling(r, q, s, True)))
+    return list(dict.fromkeys(out + pool))
+
+
+def oracle_binding_template_strings(run: Run, cases: list[tuple[str, str]]) -> None:
+    """`include/render ... with/for <interpolated string> as v`: the partial is
+    rendered once with the string, under render() and render_async()."""
+    im = run.im
+    data = {"x": "<Xé>", "y": "${y}"}
+    forms = ["{%% include 'pv' with %s as v %%}", "{%% include 'pv' for %s as v %%}", "{%% include 'p' with %s %%}",
+             "{%% render 'pv' with %s as v %%}", "{%% render 'pv' for %s as v %%}", "{%% render 'p' for %s %%}"]
+    for q, raw in cases:
+        if not no_surr(raw) or not in_fragment(raw):
+            continue
+        want = _ref_template(q, raw, data)
+        if want is None:
+            continue
+        for fmt in forms:
+            src = fmt % lit(q, raw)
+            outs = {}
+            for mode in ("sync", "async"):
+                im.mode = mode
+                try:
+                    outs[mode] = attempt(im.render, src, data, BIND_TEMPLATES)
+                finally:
+                    im.mode = "sync"
+                run.count("oracle_renders")
+                run.count("oracle_async_renders", 1 if mode == "async" else 0)
+            for mode in ("sync", "async"):
+                if outs[mode] != ("ok", "[" + want + "]"):
+                    got = outs[mode][1] if outs[mode][0] == "ok" else type(outs[mode][1]).__name__
+                    run.fail("literal-value:binding" + (":async" if mode == "async" else ""),
+                             f"{src!r} under {'render_async' if mode == 'async' else 'render'}(): the partial writes {got!r}, "
+                             f"the string bound is {want!r}",
+                             {"source": src, "mode": mode, "data": data, "intended": "[" + want + "]", "got": got})
+                    break
 
 
 # ---------------------------------------------------------------- auto_escape x literal positions
@@ -1347,16 +1546,20 @@ def main(chk: C.Check, build: C.Build) -> None:
     v = gen_valid(run)
     short, three, longer = v["short"], v["three"], v["longer"]
     all_sites = list(SITES)
-    few = ["output", "path", "if"]
+    few = ["output", "path"]
     others = [n for n in all_sites if n not in few]
-    # direct oracle
-    oracle_sites(run, short, all_sites if thorough else few)
+    # direct oracle (quick: every fifth short spelling at the other sites, every twelfth at all sites also under render_async)
+    oracle_sites(run, short, all_sites if thorough else few, with_async=thorough)
     if not thorough:
-        oracle_sites(run, short[:: 3], others)
+        oracle_sites(run, short[1:: 5], others)
+        oracle_sites(run, short[:: 12], all_sites, with_async=True)
     oracle_sites(run, three, few)
-    oracle_sites(run, three[:: (4 if not thorough else 9)], others)
-    oracle_sites(run, longer, all_sites)
+    oracle_sites(run, three[:: (5 if not thorough else 9)], others, with_async=True)
+    oracle_sites(run, longer[:: 2], all_sites, with_async=True)
+    oracle_sites(run, longer[1:: 2], all_sites, with_async=thorough)
     lap("oracle_valid")
+    oracle_template_names(run, gen_name_literals(run, short[:: (9 if not thorough else 1)] + longer[:: (3 if not thorough else 1)]))
+    lap("oracle_template_names")
     mal = malformed(r, [(s, raw) for q, s, raw in short[:: 9] + longer[:: 3]], 300 if not thorough else 3000)
     oracle_invalid(run, BOUNDARY + (mal if thorough else mal[:: 2]))
     lap("oracle_invalid")
@@ -1385,6 +1588,7 @@ def main(chk: C.Check, build: C.Build) -> None:
     tie_site_values(run, val_in, 6 if not thorough else 2)
     lap("tie_site_values")
     tie_template_values(run, ts_cases)
+    oracle_binding_template_strings(run, ts_cases + [(SQ, ""), (DQ, ""), (DQ, "${x}"), (SQ, "${x}${y}"), (DQ, "a${x}")])
     lap("tie_template_values")
     tie_numbers(run)
     lap("tie_numbers")
@@ -1415,6 +1619,10 @@ def main(chk: C.Check, build: C.Build) -> None:
                  "4300-digit limit) with e/E/+ exponents, decimal and scientific floats. json: seeded nested values. "
                  "auto_escape off and on x %d literal positions (filter argument positional/keyword, tag keyword argument, macro "
                  "argument/default, segment, interpolated string ...) x literals over & < > ' \" under plain and seeded spellings. "
+                 "template names: extends / include / render with a recording loader (decoys under the raw spelling and the twice-unescaped "
+                 "name) over backslash-heavy names (layouts\\base, code\\u0041, UNC paths, quotes, newline, astral) under plain, fully escaped "
+                 "and seeded spellings, sync and async. every site also under render_async() (quick: a twelfth of the short spellings, half of the "
+                 "longer ones), incl. include/render with|for <literal> [as v] which must bind the string once. "
                  "json history: %d scalars (True/1/1.0, False/0/0.0/-0.0 ...) + nested + %d literals through the json filter in seeded "
                  "and fixed type-major orders, long-lived and fresh environments, in this process and in fresh subprocesses, compared "
                  "with type, value and sign of zero. "
